@@ -1,4 +1,4 @@
 SPECIFICATION Spec
 CONSTANT Emit = TRUE
-INVARIANTS Tables RejectedChangesNothingM DesignC12 DesignC14 FailOpenElsewhere BidDeviation
+INVARIANTS Tables RejectedChangesNothingM DesignC12 DesignC14 FailOpenElsewhere
 CHECK_DEADLOCK FALSE
